@@ -33,13 +33,13 @@ func DefaultUniverse() Universe {
 }
 
 type Opts struct {
-	Fork       int  // index into impl.Forks
-	Depth      int  // nesting budget for call targets
-	Cancun     bool // allow TLOAD/TSTORE/MCOPY
-	NoCreate   bool
-	NoSuicide  bool
-	MaxSnips   int
-	Journal    bool // allow journal opcodes (never for reference comparison)
+	Fork      int  // index into impl.Forks
+	Depth     int  // nesting budget for call targets
+	Cancun    bool // allow TLOAD/TSTORE/MCOPY
+	NoCreate  bool
+	NoSuicide bool
+	MaxSnips  int
+	Journal   bool // allow journal opcodes (never for reference comparison)
 }
 
 type gen struct {
@@ -235,7 +235,7 @@ func (g *gen) snippet() {
 		b.Push(n)
 		loop := b.Len()
 		b.Op(asm.JUMPDEST)
-		b.Push(1).Op(asm.SWAP1, asm.SUB)         // n-1
+		b.Push(1).Op(asm.SWAP1, asm.SUB)              // n-1
 		b.Op(asm.DUP1).Push2Fixed(loop).Op(asm.JUMPI) // if n-1 != 0 goto loop
 		b.Op(asm.POP)
 	case x < 82: // calls
@@ -287,8 +287,52 @@ func (g *gen) snippet() {
 			b.Push(uint64(g.r.Intn(40))).Push(g.memOff()).Op(asm.RETURN)
 		}
 	default:
-		b.PushBig(g.smallWord())
-		g.sink()
+		if g.o.Journal {
+			g.journal()
+		} else {
+			b.PushBig(g.smallWord())
+			g.sink()
+		}
+	}
+}
+
+// journal emits Artela journal instructions: register a state variable (name string in memory at
+// 0x300) and journal its value, mostly with well-formed operands.
+func (g *gen) journal() {
+	b := g.b
+	names := [][]byte{[]byte("a"), []byte("balance"), []byte("x")}
+	name := names[g.r.Intn(len(names))]
+	slot := uint64(g.r.Intn(4))
+	ty := uint64(10 + g.r.Intn(2))
+	b.Push(uint64(len(name))).Push(0x300).Op(asm.MSTORE)
+	b.MstoreBytes(0x320, name)
+	if g.r.Bool() { // value typed
+		off := uint64(g.r.Intn(32))
+		if g.r.Intn(10) == 0 {
+			off = 32 + uint64(g.r.Intn(3)) // malformed
+		}
+		b.Push(ty).Push(off).Push(slot).Push(0x300).Op(0xe1)
+		n := 1 + g.r.Intn(2)
+		for i := 0; i < n; i++ {
+			size := uint64(g.r.Intn(33 - int(off%32)))
+			if g.r.Intn(12) == 0 {
+				size = 33
+			}
+			b.Push(ty).Push(size).Push(off).Push(slot).Op(0xe6)
+		}
+	} else { // reference typed: store a short string first
+		content := g.r.Bytes(g.r.Intn(32))
+		w := make([]byte, 32)
+		copy(w, content)
+		w[31] = byte(2 * len(content))
+		if g.r.Intn(10) == 0 {
+			w[31] = 0x91 // invalid encoding
+		}
+		if !g.r.Chance(1, 4) {
+			b.PushBytes(w).Push(slot).Op(asm.SSTORE)
+		}
+		b.Push(ty).Push(slot).Push(0x300).Op(0xe0)
+		b.Push(ty).Push(slot).Op(0xe7)
 	}
 }
 
